@@ -108,56 +108,48 @@ SSig1(k, x) == IF k = 2 THEN WXor3(WRotr(x, 17), WRotr(x, 19), WShr(x, 10))
 (* of lenBytes bytes, total a multiple of blockBytes.  Byte lengths below   *)
 (* 2^28 (the bit length must fit a TLC integer).                            *)
 LenField(nbits, lenBytes) ==
-    [j \in 1..lenBytes |-> LET e == lenBytes - j IN
-                           IF e >= 4 THEN 0 ELSE (nbits \div (256 ^ e)) % 256]
+    Eager([j \in 1..lenBytes |-> LET e == lenBytes - j IN
+                                 IF e >= 4 THEN 0 ELSE (nbits \div (256 ^ e)) % 256])
 Pad(msg, blockBytes, lenBytes) ==
     LET n == Len(msg)
         z == (2 * blockBytes - ((n + 1 + lenBytes) % blockBytes)) % blockBytes
     IN msg \o <<128>> \o Zeros(z) \o LenField(8 * n, lenBytes)
 
-(* 6.2.2 / 6.4.2 step 1: message schedule of the block at byte offset o *)
-RECURSIVE Sched(_, _, _)
-Sched(W, k, rounds) ==
-    IF Len(W) = rounds THEN W
-    ELSE LET t == Len(W) + 1 IN
-         Sched(Append(W, WSum(<<SSig1(k, W[t - 2]), W[t - 7], SSig0(k, W[t - 15]), W[t - 16]>>)),
-               k, rounds)
+(* 6.2.2 / 6.4.2 step 1: message schedule, W extended by one word per step *)
+SchedStep(k, W, t) ==
+    Append(W, WSum(<<SSig1(k, W[t - 2]), W[t - 7], SSig0(k, W[t - 15]), W[t - 16]>>))
 
-(* steps 2-3: the working variables <<a,b,c,d,e,f,g,h>> through all rounds *)
-RECURSIVE Rounds(_, _, _, _, _)
-Rounds(v, W, K, k, t) ==
-    IF t > Len(K) THEN v
-    ELSE LET T1 == WSum(<<v[8], BSig1(k, v[5]), Ch(v[5], v[6], v[7]), K[t], W[t]>>)
-             T2 == WAdd(BSig0(k, v[1]), Maj(v[1], v[2], v[3]))
-         IN Rounds(<<WAdd(T1, T2), v[1], v[2], v[3], WAdd(v[4], T1), v[5], v[6], v[7]>>,
-                   W, K, k, t + 1)
+(* step 3: one round on the working variables v = <<a,b,c,d,e,f,g,h>> *)
+Round(W, K, k, v, t) ==
+    LET T1 == WSum(<<v[8], BSig1(k, v[5]), Ch(v[5], v[6], v[7]), K[t], W[t]>>)
+        T2 == WAdd(BSig0(k, v[1]), Maj(v[1], v[2], v[3]))
+    IN <<WAdd(T1, T2), v[1], v[2], v[3], WAdd(v[4], T1), v[5], v[6], v[7]>>
 
-(* one block: H(i) from H(i-1) and the 16 words at byte offset o of m *)
+(* steps 1-4 for the block at byte offset o of m: H(i) from H(i-1) *)
 Compress(H, m, o, K, k) ==
-    LET W == Sched([t \in 1..16 |-> WFromBE(m, o + 2 * k * (t - 1), k)], k, Len(K))
-        v == Rounds(H, W, K, k, 1)
-    IN [i \in 1..8 |-> WAdd(H[i], v[i])]
+    LET W16 == Eager([t \in 1..16 |-> WFromBE(m, o + 2 * k * (t - 1), k)])
+        W == Iter(LAMBDA X, t : SchedStep(k, X, t), W16, 17, Len(K))
+        v == Iter(LAMBDA x, t : Round(W, K, k, x, t), H, 1, Len(K))
+    IN Eager([i \in 1..8 |-> WAdd(H[i], v[i])])
 
-RECURSIVE Blocks(_, _, _, _, _)
-Blocks(H, m, o, K, k) ==
-    IF o >= Len(m) THEN H
-    ELSE Blocks(Compress(H, m, o, K, k), m, o + 32 * k, K, k)
+(* all blocks of the padded message m, block size 32k bytes *)
+Blocks(H0, m, K, k) ==
+    Iter(LAMBDA H, i : Compress(H, m, 32 * k * (i - 1), K, k), H0, 1, Len(m) \div (32 * k))
 
 Digest(H, nbytes) == Take(Flatten([i \in 1..8 |-> WToBE(H[i])]), nbytes)
 
-Sha256(msg) == Digest(Blocks(H256, Pad(msg, 64, 8), 0, K256, 2), 32)
-Sha224(msg) == Digest(Blocks(H224, Pad(msg, 64, 8), 0, K256, 2), 28)
-Sha512(msg) == Digest(Blocks(H512, Pad(msg, 128, 16), 0, K512, 4), 64)
-Sha384(msg) == Digest(Blocks(H384, Pad(msg, 128, 16), 0, K512, 4), 48)
+Sha256(msg) == Digest(Blocks(H256, Pad(msg, 64, 8), K256, 2), 32)
+Sha224(msg) == Digest(Blocks(H224, Pad(msg, 64, 8), K256, 2), 28)
+Sha512(msg) == Digest(Blocks(H512, Pad(msg, 128, 16), K512, 4), 64)
+Sha384(msg) == Digest(Blocks(H384, Pad(msg, 128, 16), K512, 4), 48)
 
 -----------------------------------------------------------------------------
 (* Published examples (FIPS 180-4 example files / RFC 6234 test cases).    *)
-Hx(s) == s      \* digests below are written as byte tuples
 Abc == <<97, 98, 99>>
 (* "abcdbcdecdefdefgefghfghighijhijkijkljklmklmnlmnomnopnopq" (448 bits) *)
-M448 == [i \in 1..56 |-> 97 + ((i - 1) \div 4) + ((i - 1) % 4)]
+M448 == Eager([i \in 1..56 |-> 97 + ((i - 1) \div 4) + ((i - 1) % 4)])
 (* "abcdefghbcdefghicdefghij...nopqrstu" (896 bits) *)
-M896 == [i \in 1..112 |-> 97 + ((i - 1) \div 8) + ((i - 1) % 8)]
+M896 == Eager([i \in 1..112 |-> 97 + ((i - 1) \div 8) + ((i - 1) % 8)])
 ASSUME Sha256(Abc) =
     <<186, 120, 22, 191, 143, 1, 207, 234, 65, 65, 64, 222, 93, 174, 34, 35, 176, 3, 97, 163, 150, 23, 122, 156, 180, 16, 255, 97, 242, 0, 21, 173>>
 ASSUME Sha256(<<>>) =
